@@ -292,11 +292,16 @@ HdrBase(pfx, t) == pfx \o (IF t = "first" THEN "first" ELSE IF t = "even" THEN "
 HdrName(pfx, t) == "word/" \o HdrBase(pfx, t)
 HdrRels(pfx, t) == "word/_rels/" \o HdrBase(pfx, t) \o ".rels"
 
-\* parts an edit (re)writes by design: outside the byte-identity claim from then on
+\* parts an edit (re)writes by design: outside the byte-identity claim from then on. Each entry was
+\* confirmed against the code (header_footer.go, numbering.go updateNumberingFile, footnotes.go
+\* updateFootnotesFile/updateEndnotesFile/saveSettings, properties.go generateCore/AppProperties,
+\* document.go appendMissingStyles) and is necessary: without it the unchanged library is reported.
+\* The relationship part of a replaced header/footer is included because a correct implementation may
+\* discard it together with the part it belonged to.
 Touches(e) ==
   CASE e.op = "AddHeader"         -> {HdrName("header", e.t), HdrRels("header", e.t)}
     [] e.op = "AddFooter"         -> {HdrName("footer", e.t), HdrRels("footer", e.t)}
-    [] e.op = "AddListItem"       -> {"word/numbering.xml", StylesPart}
+    [] e.op = "AddListItem"       -> {"word/numbering.xml"}
     [] e.op = "AddFootnote"       -> {"word/footnotes.xml"}
     [] e.op = "AddEndnote"        -> {"word/endnotes.xml"}
     [] e.op = "SetFootnoteConfig" -> {"word/settings.xml"}
